@@ -31,6 +31,7 @@ MENU = [
     "ns.f(p=1, q='s', r=(1, 2))", "eq a", "a eq eq 1", "a eq 1 )", "a eq", "$a eq 1", "a eq 1 $", "zz(1)", "length(a, b)", "", "   ",
     LONG, "(1, 2,", "a/b/c/any(", "'unterminated",
     # the same function first valid, then with a wrong argument count / in another namespace (per-instance memo tables)
+    "zz(1) eq eq 2", "substring(a) and", "length(a, b) eq (1",
     "length(a) eq 1", "substring(a, 1) eq 'x'", "substring(a) eq 'x'", "geo.length(a, b)", "ns.length(a, b, c) eq 1",
 ]
 
